@@ -7,8 +7,9 @@ the description is given in), merging states by the abstract bookkeeping state (
 dictionary types of the whole description, bit phase, block counter), so every (bookkeeping state, call)
 transition is dumped once with a shortest program, the description TLC built for it (`obs.tree`), the
 description as handed to the Serialiser (`gtree`: typed / all plain dicts / fixeddict types exchanged) and
-the bits (`obs.bits`).  Two configurations run concurrently: mc/SerDes.cfg (the whole alphabet, short
-programs) and mc/SerDesLists.cfg (lists of typed subcontexts, longer programs).
+the bits (`obs.bits`).  Three configurations run concurrently: mc/SerDes.cfg (the whole alphabet, short
+programs), mc/SerDesLists.cfg (lists of typed subcontexts, longer programs) and mc/SerDesFaults.cfg (every
+fault kind in nested / typed contexts); each dump is replayed (pmap over chunks) while TLC still works on the next.
 G: each program is run on the real Serialiser (over the TLC-built given description, perturbed by the fault)
    and on the real Deserialiser (over the bytes); descriptions are compared including dictionary types.
 T: not built; the thorough tier instead replays TLC -simulate random walks (depth 15, nesting 3).
@@ -327,14 +328,33 @@ _HDR = c20._HDR
 _VARS = ("hist", "obs")
 
 
-def parse_block(block):
+_KEY = re.compile(r"([A-Za-z_][A-Za-z0-9_]*) \|->")
+_STR = re.compile(r'"([^"]*)"')
+_SAFE_STR = re.compile(r"^[A-Za-z0-9_ .:/-]*$")
+
+
+def fast_parse(text):
+    """TLA+ value (records, sequences, integers, booleans, strings: all SerDes.tla prints) -> the same Python
+    value as tlaval.parse, by rewriting it into a Python literal (tlaval's tokenizer was 80 % of the replay).
+    Only used on text whose string literals are plain words (checked per chunk by strings_are_plain)."""
+    py = text.replace("<<>>", "()").replace("<<", "(").replace(">>", ",)").replace("[", "{").replace("]", "}")
+    py = _KEY.sub(r'"\1":', py).replace("TRUE", "True").replace("FALSE", "False")
+    return eval(py, {"__builtins__": {}}, {})  # noqa: S307 - TLC's own output, vocabulary checked
+
+
+def strings_are_plain(text):
+    return all(_SAFE_STR.match(x) and "TRUE" not in x and "FALSE" not in x for x in set(_STR.findall(text)))
+
+
+def parse_block(block, fast=False):
     """only the variables the replay needs (hist, obs) are parsed: the others are 2/3 of the dump"""
     st = {}
     ms = list(tlaval._VAR.finditer(block))
     for j, m_ in enumerate(ms):
         if m_.group(1) in _VARS:
             end = ms[j + 1].start() if j + 1 < len(ms) else len(block)
-            st[m_.group(1)] = tlaval.parse(block[m_.end() : end])
+            text = block[m_.end() : end]
+            st[m_.group(1)] = fast_parse(text) if fast else tlaval.parse(text)
     if set(st) != set(_VARS):
         raise RuntimeError("dumped state without %s: %r" % (_VARS, block[:200]))
     return st
@@ -388,10 +408,13 @@ def new_tot():
 def work_text(text, probes=True):
     hdrs = list(_HDR.finditer(text))
     out = new_tot()
+    fast = strings_are_plain(text)
     for j, h in enumerate(hdrs):
         end = hdrs[j + 1].start() if j + 1 < len(hdrs) else len(text)
         block = text[h.end() : end].split("\n=====")[0]
-        st = parse_block(block)
+        st = parse_block(block, fast)
+        if fast and j % 200 == 0 and st != parse_block(block):
+            raise RuntimeError("fast_parse disagrees with tlaval.parse on %r" % block[:300])
         if not st["hist"]:
             out["empty"] += 1
             continue
@@ -464,14 +487,27 @@ def merge(parts):
 
 
 def chunk_offsets(path, nchunks):
-    """byte ranges of ~nchunks groups of dumped states (the dump is ASCII, so offsets = characters)"""
+    """byte ranges of ~nchunks groups of dumped states (the dump is ASCII, so offsets = characters): equal
+    sizes, each cut moved forward to the next state header (no line of a state starts with "State ")"""
+    size = os.path.getsize(path)
+    cuts = [0]
     with open(path, "rb") as fh:
-        data = fh.read()
-    starts = [m_.start() for m_ in re.finditer(rb"^State \d+:", data, re.M)]
-    if not starts:
-        return []
-    step = max(1, len(starts) // nchunks + 1)
-    cuts = starts[::step] + [len(data)]
+        for k in range(1, nchunks):
+            start = max(cuts[-1] + 1, size * k // nchunks)
+            fh.seek(start - 1)
+            data, found = b"", -1
+            while found < 0:
+                buf = fh.read(1 << 16)
+                if not buf:
+                    break
+                data += buf
+                i = data.find(b"\nState ")
+                if i >= 0:
+                    found = start + i
+            if found < 0:
+                break
+            cuts.append(found)
+    cuts.append(size)
     return [(path, cuts[i], cuts[i + 1]) for i in range(len(cuts) - 1)]
 
 
@@ -491,28 +527,29 @@ JVM_ENV = {"JAVA_TOOL_OPTIONS": "-XX:ParallelGCThreads=2 -Xss64m -Dtlc2.value.Va
 
 def tlc_jobs(jobs):
     """Run several single-worker TLC jobs concurrently (threads); jobs = [(module, cfg text, kwargs)].
-    Generator: yields the results in the order given, each as soon as it is there, so that the caller can
-    replay one dump while TLC still works on the next."""
+    Generator: yields (index, result) in the order of completion, so that the caller can replay one dump
+    while TLC still works on the others."""
+    import queue
     import threading
 
-    out = [None] * len(jobs)
+    done = queue.Queue()
 
     def one(i):
         mod, cfg, kw = jobs[i]
         try:
-            out[i] = tlc.run(mod, cfg, workers=1, env=JVM_ENV, **kw)
+            done.put((i, tlc.run(mod, cfg, workers=1, env=JVM_ENV, **kw)))
         except BaseException as e:  # noqa
-            out[i] = e
+            done.put((i, e))
 
     ths = [threading.Thread(target=one, args=(i,)) for i in range(len(jobs))]
     for t in ths:
         t.start()
     try:
-        for i, t in enumerate(ths):
-            t.join()
-            if isinstance(out[i], BaseException):
-                raise out[i]
-            yield out[i]
+        for _ in jobs:
+            i, r = done.get()
+            if isinstance(r, BaseException):
+                raise r
+            yield i, r
     finally:
         for t in ths:
             t.join()
@@ -604,15 +641,19 @@ def run(ctx):
     M()
     c20.M()
     confs = [(c, dict(MaxLen=ctx.pick(c[2], c[3]), MaxDepth=2)) for c in CONFIGS]
-    jobs = [("SerDes", c20.cfg_text(c[0], **cst), {"dump": True, "coverage": c[4]}) for c, cst in confs]
+    # -coverage (per-action statistics in the evidence) costs 30-60 % of TLC's time: thorough tier only
+    jobs = [("SerDes", c20.cfg_text(c[0], **cst), {"dump": True, "coverage": c[4] and not ctx.quick}) for c, cst in confs]
     tlc.scratch_root()  # created here, not concurrently by the threads
-    tots = []
-    for r, (c, cst) in zip(tlc_jobs(jobs), confs):
-        ctx.add_tlc(r, c[1], dict(cst, cfg=c[0]))
+    tots = [None] * len(confs)
+    runs = [None] * len(confs)
+    for i, r in tlc_jobs(jobs):
+        runs[i] = r
         t = merge(common.pmap(work_chunk, chunk_offsets(r.dump_path, 96), chunksize=1))
         if t["n"] + t["empty"] != r.distinct or t["empty"] != 1:
             raise RuntimeError("dump yielded %d histories + %d initial states for %d distinct states" % (t["n"], t["empty"], r.distinct))
-        tots.append(t)
+        tots[i] = t
+    for r, (c, cst) in zip(runs, confs):
+        ctx.add_tlc(r, c[1], dict(cst, cfg=c[0]))
     const, const_l, const_f = [cst for _, cst in confs]
     per_conf = {c[0].split("/")[-1]: t for (c, _), t in zip(confs, tots)}
     lists_tot = per_conf["SerDesLists.cfg"]
@@ -673,7 +714,7 @@ def run(ctx):
         "leaf values come from 1-2 element sets per kind in the exhaustive box",
         "states are merged by the abstract bookkeeping state (VIEW): description values of the first program reaching a transition are used",
         "fault 'default' expects the deserialised description to contain the default (the Serialiser does not write defaults back into its input)",
-        "exhaustive TLC runs use -workers 1 (VIEW + length-bounded hist needs strict BFS); the two configurations run concurrently",
+        "exhaustive TLC runs use -workers 1 (VIEW + length-bounded hist needs strict BFS); the three configurations run concurrently",
     ]
 
 
